@@ -456,7 +456,14 @@ func exec2(h *rt.H, s *state, op string) string {
 					h.OracleFail("deleted-unexpired-pair", "forward NAT entry removed although its reverse entry was not idle past its timeout",
 						map[string]any{"op": op, "key": k.String()})
 				} else if rok && hit[b.rev] && post[b.rev] {
-					h.OracleFail("deleted-fwd-of-live-pair", "forward NAT entry removed although the connection carried (return) traffic after the judgement; its reverse entry survives",
+					// The known finding is EXACTLY: forward and reverse entry carried the same last_seen at the scan
+					// (Lean: GapCase).  Any other removal of a forward entry of a live pair gets its own signature
+					// and is therefore still an alarm.
+					sig := "deleted-fwd-of-live-pair"
+					if rb.ls != b.ls {
+						sig = "deleted-fwd-of-live-pair-unexplained"
+					}
+					h.OracleFail(sig, "forward NAT entry removed although the connection carried (return) traffic after the judgement; its reverse entry survives",
 						map[string]any{"op": op, "fwd": k.String(), "rev": b.rev.String(), "fwd_last_seen": b.ls, "rev_last_seen": rb.ls})
 				}
 			default:
